@@ -326,7 +326,7 @@ func (r *Restamper) stamp(path string, e *fsmon.Event) {
 
 // After is the fsmon After hook.
 func (r *Restamper) After(e *fsmon.Event) {
-	if e.Error() != nil {
+	if !e.Effective {
 		return
 	}
 	switch e.Op {
